@@ -692,6 +692,11 @@ func (env *specEnv) call(e *Expr) specVal {
 		case "in64":
 			x := env.tr(args[0])
 			return ghost("(and (<= (- 9223372036854775808) "+x.T+") (<= "+x.T+" 9223372036854775807))", "Bool")
+		case "dyntagOf":
+			// the dynamic-type tag of an open-interface value
+			x := env.tr(args[0])
+			vc.declareDynTag()
+			return ghost("(dyntag "+x.T+")", "Int")
 		case "seen":
 			// seen(k): key k has already been yielded by the enclosing map range loop
 			b, ok := env.names["#seen"]
